@@ -27,13 +27,15 @@ def items(tier: str) -> List[Any]:
     ]
     if tier == "quick":
         small = small[:3]
-    for s in spaces.layered(small, small, tier, l2_size=3 if tier == "quick" else 4, fall_off=False, l3=tier != "quick",
+    for s in spaces.layered(small, small, tier, l2_size=3, fall_off=False, l3=tier != "quick",
                             l2_top_alpha=1 if tier == "quick" else 2, max_subs=1 if tier == "quick" else 2,
                             kinds=("assert", "ret1", "err", "if", "while", "call") if tier == "quick" else ("assert", "ret", "ret1", "err", "if", "while", "call")):
         if s not in seen:
             seen.add(s)
             out.append(("g2", s))
-    gens = [raw.space(4, 2)] if tier == "quick" else [raw.space(5, 2)]
+    gens = [raw.space(4, 2), raw.space(3, 2, multi=True), (s for s in raw.programs(4, 2, multi=True) if "switch" in s or "match" in s)]
+    if tier != "quick":
+        gens = [raw.space(4, 2), raw.programs(5, 2, raw.PLAIN_SMALL), raw.space(4, 2, multi=True)]
     for gen in gens:
         for s in gen:
             if tier == "quick" and s.count("\n") > 4 and not ("bz " in s or "bnz " in s):
